@@ -5,5 +5,5 @@ cd "$(dirname "$0")/.."
 id=$1
 tools/confirm_seed.sh $id | tail -2
 [ -d seeded/$id ] || exit 1
-for d in /tmp/seed4/$id /tmp/seed5/$id /tmp/seed6/$id /tmp/seed7/$id /tmp/seed8/$id /tmp/seed9/$id /tmp/seed10/$id; do git -C /repo worktree remove --force $d 2>/dev/null; done
+for d in /tmp/seed4/$id /tmp/seed5/$id /tmp/seed6/$id /tmp/seed7/$id /tmp/seed8/$id /tmp/seed9/$id /tmp/seed10/$id /tmp/seed11/$id; do git -C /repo worktree remove --force $d 2>/dev/null; done
 tools/seeded_matrix_par.sh /tmp/seeded_intake_$id.txt 1 $id
